@@ -386,6 +386,11 @@ def run(chk, tier):
     chk.extra["functions_analysed"] = len(db.funcs)
     if nfiles < 700:
         chk.analysis_broken("only %d headers lexed" % nfiles)
+    # ---- SLOTS-U: range writes into the inline buffers of the strings stay inside the buffer
+    from ..rules import slots as _SL
+    _SL.check(chk, D.load("plain"), ["basic_inplace_string"], lambda r: False, only=("U",))
+    if chk.rule_instances.get("SLOTS-U", 0) < 4:
+        chk.analysis_broken("SLOTS-U: only %d range writes found in basic_inplace_string (floor 4)" % chk.rule_instances.get("SLOTS-U", 0))
     # ---- INIT
     ni = check_init(chk, db)
     if ni < 12:
